@@ -93,7 +93,7 @@ func (e *Env) BuildExec(name string, tags string, race bool) (string, error) {
 	args = append(args, "./cmd/vexec")
 	cmd := exec.Command("go", args...)
 	cmd.Dir = filepath.Join(e.Home, "harness")
-	cmd.Env = append(goEnv(), "GOCACHE="+filepath.Join(e.Scratch, "gocache"))
+	cmd.Env = goEnv()
 	out, err := cmd.CombinedOutput()
 	if err != nil {
 		return "", fmt.Errorf("go build failed: %v\n%s", err, out)
@@ -121,6 +121,33 @@ func (e *Env) Exec(bin, progs, events string, timeout time.Duration) error {
 	case <-time.After(timeout):
 		cmd.Process.Kill()
 		return fmt.Errorf("vexec: timeout after %v", timeout)
+	}
+}
+
+// ExecRace runs a -race build of vexec; returns its combined output and exit code (66 = race reported).
+func (e *Env) ExecRace(bin, progs, events string, timeout time.Duration) (string, int) {
+	cmd := exec.Command(bin, "-in", progs, "-out", events)
+	cmd.Env = append(os.Environ(), "GORACE=halt_on_error=1 exitcode=66")
+	var out bytes.Buffer
+	cmd.Stderr = &out
+	cmd.Stdout = &out
+	if err := cmd.Start(); err != nil {
+		return err.Error(), 2
+	}
+	done := make(chan error, 1)
+	go func() { done <- cmd.Wait() }()
+	select {
+	case err := <-done:
+		if err == nil {
+			return out.String(), 0
+		}
+		if ee, ok := err.(*exec.ExitError); ok {
+			return out.String(), ee.ExitCode()
+		}
+		return err.Error(), 2
+	case <-time.After(timeout):
+		cmd.Process.Kill()
+		return "timeout", 2
 	}
 }
 
